@@ -2,7 +2,7 @@
    the conditions on the type table under which the generic round-trip theorem holds, the finite check of the
    marshal / unmarshal hook pairs extracted from the source, and the correspondence functions.
    ONLY executable definitions; proofs are in Proofs/ConfigRT.v. *)
-From Coq Require Import List String Bool ZArith NArith.
+From Coq Require Import List String Bool ZArith NArith Ascii.
 From MV Require Import Lib.GoJson Gen.CfgTypes.
 Import ListNotations.
 Open Scope string_scope.
@@ -244,9 +244,52 @@ Definition stable_case_ok (k : ty * val) : bool :=
   | None => false
   end.
 
-Inductive rt_case := EncCase (k : enc_case) | DecCase (k : dec_case) | DecHCase (k : dec_case) | StableCase (k : ty * val).
+(* file case: the file the real marshaler wrote for an item name (router = false: cluster manager, true: router) *)
+Inductive rt_case := EncCase (k : enc_case) | DecCase (k : dec_case) | DecHCase (k : dec_case) | StableCase (k : ty * val)
+                   | FileCase (router : bool) (name fname : string).
+
+
+
+(* ------------------------------------------------------------------------------ path-mode file naming *)
+(* ClusterManagerConfig.MarshalJSON / RouterConfiguration.MarshalJSON keep every cluster / virtual host of a
+   container in path (directory) mode in a file named after it; the loader reads the files whose extension is
+   ".json".  Strings are byte strings (Go slices bytes).  The ORDER of the three operations is read from the source. *)
+Definition sep_char : Ascii.ascii := "/"%char.
+Fixpoint replace_sep (s : string) : string :=
+  match s with
+  | EmptyString => EmptyString
+  | String c s' => String (if Ascii.eqb c sep_char then "_"%char else c) (replace_sep s')
+  end.
+Fixpoint firstn_str (n : nat) (s : string) : string :=
+  match n, s with
+  | S n', String c s' => String c (firstn_str n' s')
+  | _, _ => EmptyString
+  end.
+Definition apply_fop (max : nat) (s : string) (o : fop) : string :=
+  match o with
+  | FTrunc => firstn_str max s
+  | FReplaceSep => replace_sep s
+  | FAppendJson => s ++ ".json"
+  end.
+Definition file_name (max : nat) (ops : list fop) (name : string) : string := fold_left (apply_fop max) ops name.
+Definition canon_ops : list fop := [FTrunc; FReplaceSep; FAppendJson].
+
+(* path.Ext(file) == ".json" : the name ends in ".json" *)
+Definition loader_accepts (fname : string) : bool :=
+  String.eqb (substring (String.length fname - 5) 5 fname) ".json".
+
+Fixpoint has_sep (s : string) : bool :=
+  match s with EmptyString => false | String c s' => (Ascii.eqb c sep_char || has_sep s')%bool end.
+
+Definition repeat_char (c : Ascii.ascii) (n : nat) : string :=
+  (fix go (n : nat) : string := match n with O => EmptyString | S n' => String c (go n') end) n.
+
 Definition rt_case_ok (k : rt_case) : bool :=
-  match k with EncCase e => enc_case_ok e | DecCase d => dec_case_ok d | DecHCase d => dech_case_ok d | StableCase s => stable_case_ok s end.
+  match k with
+  | EncCase e => enc_case_ok e | DecCase d => dec_case_ok d | DecHCase d => dech_case_ok d | StableCase s => stable_case_ok s
+  | FileCase router name fname =>
+    String.eqb (file_name src_max_file_path (if router then src_fname_ops_router else src_fname_ops_cluster) name) fname
+  end.
 
 Fixpoint mismatches_from {A} (ok : A -> bool) (i : nat) (l : list A) : list nat :=
   match l with
